@@ -23,4 +23,4 @@ RUSTFLAGS="-Zmir-opt-level=0 -Awarnings" \
 RUSTC_WORKSPACE_WRAPPER=$DRV \
 MIRX_OUT=$OUT \
 CARGO_TARGET_DIR=$TGT \
-cargo +nightly check --offline --workspace --lib --bins "$@" 2>&1 | tail -5
+cargo +nightly check --offline --workspace --lib --bins "$@" > "$OUT/../extract.log" 2>&1 || { grep -B2 -A12 "panicked at\|^error" "$OUT/../extract.log" | head -60; exit 1; }
